@@ -138,10 +138,10 @@ def ref_perm_bits(s):
 def ob_modes():
     def h():
         rec = []
-        MI.set_chmod = lambda path, mode, **k: rec.append(('chmod', path, mode))
-        MI.set_chown = lambda path, user=None, group=None, **k: rec.append(('chown', path, user, group))
+        MI.set_chmod = lambda path, mode, dir_fd=None, follow_symlinks=True: rec.append(('chmod', path, mode, follow_symlinks))       # defaults as the real functions
+        MI.set_chown = lambda path, user=None, group=None, dir_fd=None, follow_symlinks=True: rec.append(('chown', path, user, group, follow_symlinks))
         isexec = sym_bool('source_is_executable')
-        MI.is_executable = lambda path, follow_symlinks=False: isexec
+        MI.is_executable = lambda path, follow_symlinks=False: (rec.append(('isexec', path, None, None, follow_symlinks)), isexec)[1]
         preserve = choose(2, 'umask_preserve') == 1
         ub = [sym_int('umask_bit%d' % i, 0, 1) for i in range(9)]
         umask = 'preserve' if preserve else sum((b * (1 << i) for i, b in enumerate(ub)), 0)
@@ -181,6 +181,8 @@ def ob_modes():
             cover('umask')
         if kind == 2:
             check(any(r[0] == 'chown' and r[2] == 'root' for r in rec), 'declared owner is applied'); cover('owner')
+        check(all(r[-1] is False for r in rec), 'permissions are read from and applied to the installed item itself, never through a symlink to its target (which may lie outside DESTDIR)')
+        check(all(r[1] == '/D/x' for r in rec), 'only the installed path is touched')
     return h
 
 
